@@ -35,6 +35,12 @@ pub struct Cfg10 {
     pub hot_hard: usize,
     pub persist: bool,
     pub max_vectors: usize,
+    /// index capacity shared by all tenants; small values make the index fill up (tombstone compaction, refusals)
+    #[serde(default = "default_capacity")]
+    pub capacity: usize,
+}
+fn default_capacity() -> usize {
+    400
 }
 
 #[derive(Clone, Debug, PartialEq, Serialize, Deserialize)]
@@ -213,6 +219,7 @@ pub fn gen_plan(seed: u64, run: u64, tier: &str) -> Plan {
         hot_hard: hot_soft + rng.range(1, 4) as usize,
         persist,
         max_vectors: 1000,
+        capacity: *rng.pick(&[400usize, 400, 10, 16]),
     };
     let n = if tier == "thorough" { rng.range(10, 60) } else { rng.range(6, 32) } as usize;
     let mut steps = Vec::new();
@@ -275,7 +282,7 @@ pub fn server_cfg(c: &Cfg10, data_dir: Option<String>, aux_dir: String) -> (Serv
             qc_threshold: 0.99,
             hot_soft: c.hot_soft,
             hot_hard: c.hot_hard,
-            capacity: 400,
+            capacity: c.capacity,
             snapshot_interval: 7,
             max_wal: 1 << 20,
             global_qps: None,
@@ -526,6 +533,15 @@ fn apply_item(m: &mut TModel, it: &Item) {
 
 /// Judge the interleaved world against per-tenant models + ground truth. Stops at the first problem.
 pub fn judge(plan: &Plan, w: &World, snaps: &mut BTreeMap<usize, TModel>) -> Option<Problem> {
+    let mut refusals = 0u64;
+    let r = judge_inner2(plan, w, snaps, &mut refusals);
+    if refusals > 0 {
+        snaps.insert(usize::MAX, TModel::new()); // marker: the shared index refused writes for lack of room
+    }
+    r
+}
+
+fn judge_inner2(plan: &Plan, w: &World, snaps: &mut BTreeMap<usize, TModel>, capacity_refusals: &mut u64) -> Option<Problem> {
     let c = &plan.cfg;
     let mut models: Vec<TModel> = vec![TModel::new(); c.n_tenants];
     let idx_of = |t: usize| w.tenant_index.get(t).cloned().flatten();
@@ -585,10 +601,39 @@ pub fn judge(plan: &Plan, w: &World, snaps: &mut BTreeMap<usize, TModel>) -> Opt
                             if resp.code == 0 {
                                 return mism("status", format!("id {} must be refused, got code {} {:?}", it.id, resp.code, resp.message));
                             }
+                        } else if c.capacity < 400 && (resp.code == 13 || resp.code == 8) {
+                            // the shared index is full: a refusal for lack of room is legitimate and must have no effect
+                            // (the ground-truth check below verifies that)
+                            *capacity_refusals += 1;
                         } else {
                             match &resp.body {
                                 Body::Insert { success: true, inserted: 1, failed: 0, .. } if resp.code == 0 => apply_item(m, it),
                                 _ => return mism("status", format!("valid insert of id {} answered code {} {:?} {:?}", it.id, resp.code, resp.message, resp.body)),
+                            }
+                        }
+                    }
+                    Rpc::BulkInsert(items) | Rpc::BulkLoad(items) if c.capacity < 400 => {
+                        // items may be refused for lack of room: which ones took effect is read off the canonical state
+                        // (the per-write key "w" identifies the item), the counts only have to be consistent
+                        let valid = items.iter().filter(|it| id_valid(it.id)).count() as u64;
+                        let (ok_n, fail_n) = match &resp.body {
+                            Body::Insert { inserted, failed, .. } if resp.code == 0 => (*inserted, *failed),
+                            Body::BulkLoad { loaded, failed, .. } if resp.code == 0 => (*loaded, *failed),
+                            _ => return mism("status", format!("{} items answered code {} {:?} {:?}", items.len(), resp.code, resp.message, resp.body)),
+                        };
+                        if ok_n > valid || ok_n + fail_n != items.len() as u64 {
+                            return mism("counts", format!("{} items ({} valid): answer reports {} accepted, {} failed", items.len(), valid, ok_n, fail_n));
+                        }
+                        if ok_n < valid {
+                            *capacity_refusals += 1;
+                        }
+                        if let Some(Some(truth)) = w.truth.get(i) {
+                            let tr: BTreeMap<u64, &Meta> = truth.iter().map(|(g, mm)| (*g, mm)).collect();
+                            for it in items.iter().filter(|it| id_valid(it.id)) {
+                                let cand = TDoc { vec: it.vec.clone(), meta: public(&it.meta), ns: it.ns.clone() };
+                                if tr.get(&(((idx as u64) << 32) | it.id)).map(|mm| **mm == full_meta(t, idx, &cand)).unwrap_or(false) {
+                                    m.insert(it.id, cand);
+                                }
                             }
                         }
                     }
@@ -929,12 +974,15 @@ pub fn compare_alone(plan: &Plan, inter: &World, alone: &World, t: usize, snaps:
                     // the candidates of a search are selected over the shared index before the tenant filter: whether
                     // documents of other tenants are live at this point is the diagnosis recorded in the fingerprint
                     let own_idx = inter.tenant_index.get(t).cloned().flatten().unwrap_or(u32::MAX);
-                    let foreign_live = inter.truth.get(i).and_then(|x| x.as_ref()).map(|tr| tr.iter().any(|(gid, _)| (gid >> 32) as u32 != own_idx)).unwrap_or(false);
+                    let foreign_in = |j: usize| inter.truth.get(j).and_then(|x| x.as_ref()).map(|tr| tr.iter().any(|(gid, _)| (gid >> 32) as u32 != own_idx)).unwrap_or(false);
+                    let foreign_live = foreign_in(i);
+                    // deleted documents stay in the shared graph as tombstones until compaction and still take candidate slots
+                    let foreign_earlier = (0..i).any(foreign_in);
                     push_new(&mut out, prob(
                         "answer_depends_on_other_tenants",
                         i,
                         format!("tenant {} {} step {}: with the other tenants' traffic interleaved the answer is (ids, total_found) {:?}; the same history alone gives {:?}", TENANTS[t], kind, i, sa, sb),
-                        &[("rpc", kind), ("field", "result_ids_or_total_found"), ("other_tenants_documents", if foreign_live { "live" } else { "none_live" })],
+                        &[("rpc", kind), ("field", "result_ids_or_total_found"), ("other_tenants_documents", if foreign_live { "live" } else if foreign_earlier { "deleted_earlier" } else { "never_present" })],
                     ));
                     continue;
                 }
@@ -1043,6 +1091,12 @@ pub fn execute(plan: &Plan) -> Exec {
             ex.problems.push(pb);
             return ex;
         }
+        if snaps.contains_key(&usize::MAX) {
+            // the index (a resource shared by all tenants) ran out of room: the alone and interleaved worlds differ
+            // legitimately from here on, so the alone-vs-interleaved comparison is not made for this history
+            *ex.probes.entry("histories_with_index_full_refusals".into()).or_insert(0) += 1;
+            return ex;
+        }
         for t in 0..p.cfg.n_tenants {
             let alone = run_world(&p, Some(t), 1 + t as u64, false);
             for pb in compare_alone(&p, &inter, &alone, t, &snaps, &mut ex.probes) {
@@ -1114,6 +1168,9 @@ pub fn run_batch(seed: u64, start: u64, count: u64, tier: &str, budget_ms: u64, 
         sum.count("worlds", 1 + plan.cfg.n_tenants as u64);
         if plan.cfg.persist {
             sum.probe("persistent_server_runs", 1);
+        }
+        if plan.cfg.capacity < 400 {
+            sum.probe("small_index_capacity_runs", 1);
         }
         if plan.steps.iter().any(|s| matches!(s, Step::Restart)) {
             sum.probe("runs_with_restart", 1);
